@@ -601,14 +601,17 @@ class ChemicalIndexer(Indexer):
     
     def copy_like(self, other):
         if self is other: return
+        other_data = other.sum_across_phases()
         if self.chemicals is other.chemicals:
-            self.data.copy_like(other.data)
+            self.data.copy_like(other_data)
         else:
             self.empty()
-            other_data = other.data
             left_index, right_index = index_overlap(self._chemicals, other._chemicals, [*other_data.nonzero_keys()])
             self.data[left_index] = other_data[right_index]
-        self.phase = other.phase
+        if isinstance(other, ChemicalIndexer):
+            self.phase = other.phase
+        elif len(other._phases) == 1:
+            self.phase, = other._phases
     
     def _copy_without_data(self):
         new = _new(self.__class__)
@@ -774,45 +777,28 @@ class MaterialIndexer(Indexer):
         return self.data.sum(0)
     
     def copy_like(self, other):
-        if self is other: return
-        phase_indexer = self._phase_indexer
+        if self is other or self.data is other.data: return
         if isinstance(other, ChemicalIndexer):
-            self.empty()
-            other_data = other.data
-            phase = other.phase
-            if phase not in phase_indexer: self._expand_phases(phase)
-            phase_index = phase_indexer(phase)
-            if self.chemicals is other.chemicals:
-                self.data.rows[phase_index].copy_like(other_data)
-            else:
-                other_data = other.data
-                left_index, right_index = index_overlap(self._chemicals, other._chemicals, [*other_data.nonzero_keys()])
-                self.data.rows[phase_index][left_index] = other_data[right_index] 
+            phase_data = [(other.phase, other.data)]
         else:
-            other_phase_indexer = other._phase_indexer
-            if self.chemicals is other.chemicals:
-                if phase_indexer is other_phase_indexer:
-                    self.data.copy_like(other.data)
-                elif phase_indexer.compatible_with(other_phase_indexer):
-                    self.empty()
-                    data = self.data
-                    for i, j in other: data[phase_indexer(i)] = j
-                else:
-                    self._expand_phases(other._phases)
-                    self.data.copy_like(other.data)
-            else:
-                self.empty()
-                other_data = other.data
-                data = self.data
-                left_index, right_index = index_overlap(self._chemicals, other._chemicals, [*other_data.nonzero_keys()])
-                if phase_indexer is other_phase_indexer:
-                    data[:, left_index] = other_data[:, right_index]
-                elif phase_indexer.compatible_with(other_phase_indexer):
-                    for i, j in other: data[phase_indexer(i)] += j
-                else:
-                    self._expand_phases(other._phases)
-                    data[:, left_index] = other_data[:, right_index]
-                    
+            phase_data = [*zip(other._phases, other.data.rows)]
+        phase_indexer = self._phase_indexer
+        new_phases = [phase for phase, data in phase_data if phase not in phase_indexer]
+        if new_phases: 
+            self._expand_phases(new_phases)
+            phase_indexer = self._phase_indexer
+        self.empty()
+        rows = self.data.rows
+        if self.chemicals is other.chemicals:
+            for phase, data in phase_data: 
+                row = rows[phase_indexer(phase)]
+                row += data
+        else:
+            chemicals = self._chemicals
+            other_chemicals = other._chemicals
+            for phase, data in phase_data:
+                left_index, right_index = index_overlap(chemicals, other_chemicals, [*data.nonzero_keys()])
+                rows[phase_indexer(phase)][left_index] += data[right_index]
     
     def _expand_phases(self, other_phases=None):
         phases = self._phases
